@@ -516,7 +516,7 @@ PROPS["C20"] = dict(
          "1022-8192 bytes, 0.5-3.5 KiB lines with control characters, lines with a stray byte >= 0x80, embedded CR, control characters, 0-2 leading / "
          "trailing blanks, embedded NUL, IDN addresses} x {LF, CRLF} per line x final newline present/absent (rapidcheck, shrunk to the offending "
          "lines); single-line files for 20 line shapes and lengths around 1024/2048/4096/8192 in three fillings x three terminators; the "
-         "repository's data files. The ASan+UBSan build of bin/eav (make app) runs as a subprocess per file. Non-trivial = the file has an empty, "
+         "repository's data files; a quarter of the random cases and 7 fixed pairs also run the tool on two files in one invocation (output must be the two per-file outputs one after the other). The ASan+UBSan build of bin/eav (make app) runs as a subprocess per file. Non-trivial = the file has an empty, "
          "long, invalid-UTF-8 or control-character line, a CRLF terminator or no final newline; distinct by file hash.",
     assumptions=["line model = the tool's documented trimming (terminator, one leading space, one trailing blank); '#' in column 1 is a comment",
                  "verdict and message come from the in-process library with eav_init defaults, exactly what bin/main.c configures",
